@@ -874,7 +874,21 @@ func (c *Ctx) c24ParseFlagsInternals(fn *ssa.Function) {
 		nOK++
 		guarded := c21GuardedBy(r.ret.Block(), func(cond ssa.Value, truth bool) bool {
 			bo, ok := cond.(*ssa.BinOp)
-			if !ok || (bo.Op != token.EQL && bo.Op != token.NEQ) {
+			if !ok {
+				return false
+			}
+			// `len(previous) == 0`, `len(previous) < 1`, `!(len(previous) > 0)` …: the edge
+			// must hold for the empty string only (compared on the range 0..4)
+			if s, k, op, isLen := c24LenCompare(bo); isLen {
+				ip := intPred(op, k)
+				for n := int64(0); n <= 4; n++ {
+					if (ip(n) == truth) != (n == 0) {
+						return false
+					}
+				}
+				return c24IsPendingFlag(s)
+			}
+			if bo.Op != token.EQL && bo.Op != token.NEQ {
 				return false
 			}
 			var other ssa.Value
@@ -1146,4 +1160,37 @@ func c24SamePhiFamily(a, b *ssa.Phi) bool {
 func c24IsTableLookup(v ssa.Value) bool {
 	_, ok := v.(*ssa.Lookup)
 	return ok
+}
+
+// c24LenCompare: bo compares len(s) with an integer constant; returns s, the
+// constant and the operator normalised to `len(s) op k`.
+func c24LenCompare(bo *ssa.BinOp) (s ssa.Value, k int64, op token.Token, ok bool) {
+	x, y := bo.X, bo.Y
+	op = bo.Op
+	k, isK := c21ConstInt(y)
+	if !isK {
+		if k, isK = c21ConstInt(x); !isK {
+			return nil, 0, op, false
+		}
+		x = y
+		flip := map[token.Token]token.Token{token.LSS: token.GTR, token.GTR: token.LSS, token.LEQ: token.GEQ, token.GEQ: token.LEQ, token.EQL: token.EQL, token.NEQ: token.NEQ}
+		var known bool
+		if op, known = flip[op]; !known {
+			return nil, 0, op, false
+		}
+	}
+	switch op {
+	case token.LSS, token.GTR, token.LEQ, token.GEQ, token.EQL, token.NEQ:
+	default:
+		return nil, 0, op, false
+	}
+	call, isCall := x.(*ssa.Call)
+	if !isCall {
+		return nil, 0, op, false
+	}
+	bi, isB := call.Common().Value.(*ssa.Builtin)
+	if !isB || bi.Name() != "len" || len(call.Common().Args) != 1 {
+		return nil, 0, op, false
+	}
+	return call.Common().Args[0], k, op, true
 }
